@@ -230,6 +230,11 @@ pub type DEZY = <EZY<Vec<u32>, String> as DeserializeInner>::DeserType<'static>;
 pub type DRevParams = <RevParams<Vec<u8>, u16, String> as DeserializeInner>::DeserType<'static>;
 pub type SPairTA = <PairTA<&'static [u32], Vec<u8>> as SerializeInner>::SerType;
 pub type SRevParams = <RevParams<&'static [u8], u16, String> as SerializeInner>::SerType;
+// every field-typed parameter holds a view: each one must be mapped, whatever the order of parameters and fields
+pub type SRevParamsViews = <RevParams<&'static [u8], u16, &'static [i32]> as SerializeInner>::SerType;
+pub type SPairTAViews = <PairTA<&'static [u32], &'static [u8]> as SerializeInner>::SerType;
+pub type SEZYViews = <EZY<&'static [u32], &'static [u64]> as SerializeInner>::SerType;
+pub type DRevParamsVecs = <RevParams<Vec<u8>, u16, Vec<i32>> as DeserializeInner>::DeserType<'static>;
 
 
 // ---- enums with bounded field-typed parameters (compile since fix 5a76344)
